@@ -249,10 +249,30 @@ def redirectCheck (kindOf : κ → CertKind) (own : κ) (order : List RoleKind) 
       | some false => .badSignature
       | none => .verifyRaised, r.2⟩
 
+/-- The query-string parameters of a detached signature as they arrive: `SigAlg` or `Signature`
+    missing; a `SigAlg` the library does not implement (rsa-md5, ECDSA/DSA URIs, "", unknown or
+    differently spelt URIs); one of the implemented RSA algorithms. -/
+inductive DetParams where
+  | missing | unimplemented | ok
+deriving DecidableEq, Repr
+
+/-- The detached check of `Request._loads` with the parameters as they arrive: a missing parameter
+    is refused before any lookup (`if sigalg is None or signature is None`); for an unimplemented
+    `SigAlg` `verify_redirect_signature` returns `None` for every certificate (nothing is extracted,
+    nothing verified, `any(...)` is `False`): refused. -/
+def redirectCheckP (kindOf : κ → CertKind) (own : κ) (order : List RoleKind) (md : Metadata ι κ)
+    (issuer : Option ι) (signer : Option κ) : DetParams → Result κ
+  | .missing => ⟨.badSignature, []⟩
+  | .unimplemented =>
+    match mdCerts order md issuer .signing with
+    | none => ⟨.lookupFailed, []⟩
+    | some cs => ⟨.badSignature, cs⟩
+  | .ok => redirectCheck kindOf own order md issuer signer
+
 /-- How the signed item travels:
     * `enveloped`: `Response`, `Assertion` (plain or encrypted), request / logout message via POST/SOAP;
-    * `detached env`: Redirect query-string signature, the request carrying an enveloped signature too
-      when `env` (`Request._loads` checks an enveloped signature whenever one is present, then the
+    * `detached env p`: Redirect query-string signature with parameters `p`, the request carrying an
+      enveloped signature too when `env` (`Request._loads` checks an enveloped signature whenever one is present, then the
       detached one);
     * `after first withArg`: the item is checked after another signed item `first` of the same
       Response has been accepted — an (encrypted) advice assertion inside assertion `first`
@@ -260,7 +280,7 @@ def redirectCheck (kindOf : κ → CertKind) (own : κ) (order : List RoleKind) 
       next to the plain assertion `first` (`withArg = false`). -/
 inductive Kind (ι κ : Type) where
   | enveloped
-  | detached (withEnveloped : Bool)
+  | detached (withEnveloped : Bool) (params : DetParams)
   | after (first : Msg ι κ) (withArg : Bool)
 
 structure Out (κ : Type) where
@@ -280,11 +300,11 @@ def accept (restricted : Bool) (kindOf : κ → CertKind) (own : κ) (order : Li
   | .enveloped =>
     let r := checkSignatureOvc restricted kindOf order onlyMd ovc md m
     ⟨decide (r.verdict = .accepted), r.handed, []⟩
-  | .detached env =>
+  | .detached env p =>
     let rx : Result κ := if env then checkSignatureOvc restricted kindOf order onlyMd ovc md m else ⟨.accepted, []⟩
     if rx.verdict = .accepted then
       if must || ovc then
-        let rr := redirectCheck kindOf own order md m.issuer m.signer
+        let rr := redirectCheckP kindOf own order md m.issuer m.signer p
         ⟨decide (rr.verdict = .accepted), rx.handed, rr.handed⟩
       else ⟨true, rx.handed, []⟩
     else ⟨false, rx.handed, []⟩
